@@ -40,7 +40,19 @@ def cut(src, names, report=None, only_linkonce=False):
         out.append(src[pos:st]); out.append('%s%s(%s) %s\n' % (hdr, name, params, attrs)); pos = end
         if report is not None: report.append(bare)
     out.append(src[pos:])
-    return ''.join(out), hit
+    res = ''.join(out)
+    # aliases (e.g. complete-object constructor C1 = alias of base-object constructor C2) of cut symbols become declarations too
+    def alias_sub(m):
+        name = m.group(1); bare = name.strip('@').strip('"')
+        mt = [p for p in pats if fnmatch.fnmatchcase(bare, p[1:].strip('"'))]
+        if not mt or only_linkonce: return m.group(0)
+        hit.update(mt)
+        fty = m.group(2).strip()          # e.g.  void (%"class.X"*, i8*)
+        k = fty.index('(')
+        if report is not None: report.append(bare)
+        return 'declare %s %s%s\n' % (fty[:k].strip(), name, fty[k:])
+    res = re.sub(r'^(@(?:"[^"]+"|[-\w.$]+)) = [^\n]*?\balias ([^\n]*?\)), [^\n]*\n', alias_sub, res, flags=re.M)
+    return res, hit
 
 def cut_linkonce(src, names, report=None):
     """remove inline (linkonce_odr) definitions so that a replacement defined under the same symbol (asm label) in a stub TU is used"""
